@@ -211,11 +211,30 @@ func (m *Mutator) Garbage(n int) []byte {
 // Frame builds an interleaved frame, possibly with an inconsistent length.
 func (m *Mutator) Frame() []byte {
 	ch := byte(m.Pick("ch", 256))
-	n := []int{0, 1, 12, 100, 1400, 1472, 1473, 4000, 65535}[m.Pick("flen", 9)]
+	if m.Chance("lowch", 0.5) {
+		ch = byte(m.Pick("ch8", 8)) // the channels sessions really use (a back channel's included)
+	}
+	n := []int{0, 1, 12, 100, 1400, 1472, 1473, 4000, 65535, 13, 14, 20}[m.Pick("flen", 12)]
 	payload := m.Garbage(n)
 	if m.Chance("rtp", 0.5) && n >= 12 {
 		payload[0] = 0x80
 		payload[1] = 96
+		// header fields that point beyond the packet: padding count, extension length, CSRC count
+		switch m.Pick("rtpform", 6) {
+		case 0:
+			payload[0] |= 0x20
+			payload[n-1] = byte(200 + m.Pick("pad", 56))
+		case 1:
+			payload[0] |= 0x20
+			payload[n-1] = byte(n - 11)
+		case 2:
+			payload[0] |= 0x10
+		case 3:
+			payload[0] |= 0x0f
+		case 4:
+			payload[0] |= 0x20
+			payload[n-1] = 0
+		}
 	}
 	decl := n
 	switch m.Pick("decl", 6) {
